@@ -375,9 +375,9 @@ class UnitDatabase(Singleton):
         unit_database.AddUnit("length", "kilometers", "km", "%f / 1000.0", "%f * 1000.0")
 
         unit_database.AddUnitBase("time", "seconds", "s")
-        unit_database.AddUnit("time", "minutes", "min", "%f * 60.0", " %f * 60.0")
-        unit_database.AddUnit("time", "hours", "h", "%f * 3600.0", " %f * 3600.0")
-        unit_database.AddUnit("time", "days", "d", "%f * 86400.0", " %f * 86400.0")
+        unit_database.AddUnit("time", "minutes", "min", "%f / 60.0", " %f * 60.0")
+        unit_database.AddUnit("time", "hours", "h", "%f / 3600.0", " %f * 3600.0")
+        unit_database.AddUnit("time", "days", "d", "%f / 86400.0", " %f * 86400.0")
 
         unit_database.AddCategory("length", "length")
         unit_database.AddCategory("time", "time")
